@@ -100,7 +100,7 @@ def build(tier, seed):
             tasks.append({"plugin": [dict(s, F=F) for s in sel], "F": F})
     for F in ([list(CATS), ["fix", "trim"], ["fix"]]):
         tasks.append({"pyc": True, "F": F})
-    ic = [{"imports": True, "header": h, "sites": st, "F": F} for h in IMPORT_HEADERS for st in (["hasrepr"], ["external"], ["both"], ["fix", "external"], ["hasrepr", "external", "fix"])
+    ic = [{"imports": True, "header": h, "sites": st, "F": F} for h in IMPORT_HEADERS for st in (["hasrepr"], ["external"], ["both"], ["fix", "external"], ["hasrepr", "external", "fix"], ["nested-class"], ["nested-class-in", "external"])
           for F in (list(CATS), ["create", "fix"])]
     for i in range(0, len(ic), 5):
         tasks.append({"imports": ic[i : i + 5]})
@@ -205,7 +205,8 @@ IMPORT_HEADERS = {
     "test-local": "def test_reference():\n    from inline_snapshot import HasRepr, external\n\n    assert HasRepr and external\n\n\n",
 }
 IMPORT_SITES = {"hasrepr": "assert Thing() == snapshot()", "external": "assert outsource('payload') == snapshot()",
-                "both": "assert [Thing(), outsource(b'bytes')] == snapshot()", "fix": "assert {'k': Thing()} == snapshot({'k': 0})"}
+                "both": "assert [Thing(), outsource(b'bytes')] == snapshot()", "fix": "assert {'k': Thing()} == snapshot({'k': 0})",
+                "nested-class": "assert Thing.Part() == snapshot()", "nested-class-in": "assert Thing.Part() in snapshot([0])"}
 
 
 def _judge_imports(case):
@@ -213,7 +214,8 @@ def _judge_imports(case):
 
     # (the header sits in the import block at the top: a later statement of the user that rebinds the name is the user's own shadowing)
     src = ("from inline_snapshot import snapshot, outsource\n" + IMPORT_HEADERS[case["header"]].rstrip("\n") + "\n\n\nclass Thing:\n    def __repr__(self):\n        return '<Thing>'\n\n"
-           "    def __eq__(self, other):\n        return isinstance(other, Thing) or NotImplemented\n\n\n"
+           "    def __eq__(self, other):\n        return isinstance(other, Thing) or NotImplemented\n\n"
+           "    class Part:\n        def __repr__(self):\n            return '<part>'\n\n        def __eq__(self, other):\n            return isinstance(other, Thing.Part) or NotImplemented\n\n\n"
            + "".join("def test_%d():\n    %s\n\n\n" % (i, IMPORT_SITES[n]) for i, n in enumerate(case["sites"])))
     d = plugin.mk_project({"test_something.py": src, "pyproject.toml": ""})
     try:
